@@ -84,6 +84,19 @@ fn make_jail(root: &Path) -> Jail {
     std::fs::write(root.join("outside-dir").join("secret"), b"secret outside the target").unwrap();
     std::fs::create_dir_all(d.join("sibling")).unwrap();
     std::fs::write(d.join("sibling").join("file"), b"sibling of the target").unwrap();
+    // symbolic links that already exist out there under the names the hostile entries use below their
+    // links ("state", "planted", "l2", ...): an extraction that tidies up "its" destination before it
+    // looks at the parents removes them (seeded change C12-t); the snapshot records links with their targets
+    {
+        use std::os::unix::fs::symlink;
+        let o = root.join("outside-dir");
+        for name in ["state", "planted", "l2", "state-dir", "planted-dir"] {
+            let _ = symlink("secret", o.join(name));
+            let _ = symlink("../secret", o.join("sub").join(name));
+            let _ = symlink("../../secret", o.join("sub").join("deeper").join(name));
+            let _ = symlink("file", d.join("sibling").join(name));
+        }
+    }
     // siblings whose NAMES start with the target's name (a containment test on strings instead of
     // path components would take them for the inside)
     for sib in ["target.previous", "target-old", "targetX", "target "] {
